@@ -244,6 +244,11 @@ class Task:
         elif version == "1.1":
             if connection == "close":
                 self.set_close_on_finish()
+            elif getattr(self.request, "connection_close", False):
+                # the parser asks for the connection not to be reused, e.g.
+                # because the request carried both Transfer-Encoding and
+                # Content-Length (RFC 9112 section 6.1)
+                self.set_close_on_finish()
 
             if not content_length_header:
                 # RFC 7230: MUST NOT send Transfer-Encoding or Content-Length
